@@ -65,6 +65,17 @@ def rule_values(chk, fb):
     )
     C01.rule_reader_arms(chk, fb, rc)
     R, _ = C01.reader_table(fb)
+    # ST_CellType says what KIND the payload is: a text-typed cell is text whatever it looks like, a boolean is a boolean
+    memo = {}
+    for tval, want in (("s", {"String", "RichText"}), ("str", {"String", "RichText"}), ("inlineStr", {"String", "RichText"}), ("b", {"Bool"}), ("e", {"Error"})):
+        can = set()
+        for c in R.get(tval, []):
+            can |= C01.constructible(fb, c, memo)
+        if not R.get(tval):
+            continue
+        ok = bool(can) and can <= want
+        chk.ob(rc, "typed-arm(t=%s)" % tval, ok, where=fb.loc(C01.CELL + "::set_attributes"),
+               detail="the arm for t=%r can construct %s; the type says %s%s" % (tval, sorted(can), sorted(want), "" if ok else " - the payload is re-interpreted (e.g. the text 007 becomes the number 7)"))
     seen = set()
     for tval, callees in sorted(R.items()):
         for c in callees:
